@@ -1,0 +1,20 @@
+// Copyright 2024 RunReveal Inc.
+// SPDX-License-Identifier: Apache-2.0
+
+//go:build !verif
+
+package pql
+
+import "github.com/runreveal/pql/parser"
+
+func verifSite(site int) {}
+
+func verifPause(site int) {}
+
+type verifSplitState struct{}
+
+func verifSplit(last *subquery, op parser.TabularOperator, n int) verifSplitState {
+	return verifSplitState{}
+}
+
+func verifSplitDone(st verifSplitState, n int) {}
